@@ -46,5 +46,5 @@ def jobs(tier):
     J.append(vjob("validate_v6_chainLR", 2, 1, 6, 1500, unwind=17, shape=19))
     J.append(vjob("validate_v6_chainRL", 2, 1, 6, 1500, unwind=17, shape=37))
     if tier == "thorough":
-        J += [vjob("validate_v4_d2", 2, 2, 4, 3000, unwind=12, mem=20), vjob("validate_v6_d2", 2, 1, 6, 3000, unwind=12, mem=20)]
+        J += [vjob("validate_v4_d2", 2, 2, 4, 3000, unwind=17, mem=24), vjob("validate_v6_d2", 2, 1, 6, 3000, unwind=17, mem=24)]
     return J
